@@ -38,7 +38,9 @@ func init() {
 			n := i.concInt(a[0])
 			v := i.ts.Var(16)
 			i.domains[int(v.val)] = int(n)
+			i.hardAssume = true
 			i.assume(lower(types.Bool, i.ts.Cmp(OpUlt, v, i.ts.Const(16, uint64(n)))))
+			i.hardAssume = false
 			return lower(types.Int, i.ts.ZExt(v, 64))
 		},
 		// Choice(n): int in [0,n), concretised by forking
